@@ -193,8 +193,31 @@ def gen(repo):
     # --- constants
     mil = int_expr(const_value(src, "MIN_INDEX_LEN"))
     out.append("Definition MIN_INDEX_LEN : N := %d." % mil)
-    m = re.search(r"used_ids\s*:\s*BTreeMap<\s*BlobId\s*,\s*(u8|u16|u32)\s*>", src)
+    m = re.search(r"used_ids\s*:\s*BTreeMap<\s*(BlobId|\(\s*BlobType\s*,\s*BlobId\s*\))\s*,\s*(u8|u16|u32)\s*>", src)
     if not m: raise ExtractError("type of PrunePlan.used_ids not recognised")
+    typed = m.group(1) != "BlobId"
+    m = re.search(r"(u8|u16|u32)", m.group(0))
+    # every consultation of used_ids must use the same key expression as the declared key type
+    key_expr = "&(blob.tpe, blob.id)" if typed else "&blob.id"
+    other = "&blob.id" if typed else "&(blob.tpe, blob.id)"
+    sites = [("count_used_blobs", "self.used_ids.get_mut(%s)", 1), ("from_pack", "used_ids.get_mut(%s)", 3),
+             ("check_existing_packs", "self.used_ids.remove(%s)", 1), ("prune_repository", "used_ids.remove(%s)", 1)]
+    for fn, pat, cnt in sites:
+        body = norm(fn_body(src, fn))
+        if body.count(pat % key_expr) != cnt or body.count(pat % other) != 0:
+            raise ExtractError("%s: used_ids is not consulted %d time(s) with the key %s" % (fn, cnt, key_expr))
+    fub = norm(fn_body(src, "find_used_blobs"))
+    if typed:
+        for pin in [".map(|id| ((BlobType::Tree, BlobId::from(**id)), 0))", ".map(|id| ((BlobType::Data, BlobId::from(**id)), 0))",
+                    "ids.insert((BlobType::Tree, BlobId::from(*node.subtree.unwrap())), 0)"]:
+            if pin not in fub: raise ExtractError("find_used_blobs: typed insertion not found: " + pin)
+    out.append("(* key of PrunePlan.used_ids: %s *)" % ("(BlobType, BlobId)" if typed else "BlobId (untyped)"))
+    if typed:
+        out.append("Definition used_key (t : btype) (i : id) : N := 2 * i + match t with Tree => 0 | Data => 1 end.")
+    else:
+        out.append("Definition used_key (t : btype) (i : id) : N := i.")
+    out.append("Definition b_key (b : blob) : N := used_key (b_tpe b) (b_id b).")
+    meta["typed_keys"] = typed
     out.append("Definition cnt_max : N := %d.   (* %s::MAX, `count.saturating_add(1)` *)" % (2 ** int(m.group(1)[1:]) - 1, m.group(1)))
     cub = norm(fn_body(src, "count_used_blobs"))
     if "*count = count.saturating_add(1);" not in cub:
@@ -245,7 +268,7 @@ def gen(repo):
     rows = {}
     for pat, guard, arm in split_arms(cep[b + 1:match_brace(cep, b)]):
         a = norm(arm)
-        eff = ("return Err" in a, "self.used_ids.remove(&blob.id)" in a, "check_size()?" in a)
+        eff = ("return Err" in a, "self.used_ids.remove(&" in a, "check_size()?" in a)
         for t in [x.strip() for x in pat.split("|")]:
             mt = re.fullmatch(r"PackToDo::(\w+)", t)
             if not mt or mt.group(1) not in TODOS: raise ExtractError("check_existing_packs: pattern %r" % t)
@@ -304,7 +327,7 @@ def gen(repo):
         else:
             inst = non = classify(a); tail = ""
         rp = "repack_packs.push(pack)" in norm(a)
-        if rp and ".retain(|blob| used_ids.remove(&blob.id).is_some())" not in norm(a):
+        if rp and not re.search(r"\.retain\(\|blob\| used_ids\.remove\(&(blob\.id|\(blob\.tpe, blob\.id\))\)\.is_some\(\)\)", norm(a)):
             raise ExtractError("prune_repository: the repack arm no longer filters blobs with used_ids.remove")
         for t in [x.strip() for x in pat.split("|")]:
             mt = re.fullmatch(r"PackToDo::(\w+)", t)
